@@ -265,6 +265,8 @@ def run(chk):
     from . import codelemmas
     codelemmas.open_ended(chk, c, 'C09-Z')
 
+    chk.rule('C09-G', 'the `value` getters return the element\'s text on every path (copy by value reads it)')
+    codelemmas.producers_return(chk, c, 'C09-G', which='getters')
     chk.rule('C09-E', 'an element is attached really or for traversal, never both: storing a real parent clears '
                       'traversal_parent before the element is handed on (remove / replace_child choose the list to edit by '
                       'testing child.traversal_parent)')
